@@ -22,7 +22,7 @@ LEVEL = "model_checking"
 ASSUMPTIONS = [
     "I-1: a definition starts a new incarnation of the property (events with old value None start a new chain)",
     "I-2: identical BLOB re-send may or may not raise ValueUpdate",
-    "a callback removed while an event is being dispatched may or may not still receive that same event, never a later one; a callback added during dispatch may or may not receive that same event",
+    "a callback removed while an event is being dispatched: if it is registered BEFORE the remover it may or may not have received that same event, if AFTER it must not (never after it has been removed); never a later event; a callback added during dispatch may or may not receive that same event",
 ]
 NSH = 16
 TYPES = ("BaseEvent", "ValueUpdate", "StateUpdate", "DefinitionUpdate")
@@ -310,13 +310,16 @@ def run_b(alpha, views, path, ai, case, res, viol):
                     wy, wm = wy + wm, []
             elif name in removed:
                 coro_probe = name[0] == "p" and int(name[1:]) % 2 == 1
+                later = name in reg_order and reg_order.index(name) > reg_order.index("S")
                 if when == "before":
                     wm, wy = [], []
                 elif style == "plain" and coro_probe and name != "S":
                     # a coroutine callback runs as a task: events dispatched before the removal may still arrive, later ones not
                     idx = next((i for i, e in enumerate(wm) if trigger and CC.ev_match(trigger, e)), None)
                     keep = wm[: idx if idx is not None else 0]
-                    wy = wy + ([wm[idx]] if idx is not None else [])
+                    # registered AFTER the remover: the dispatch has not reached it when it is removed - "never after
+                    # it has been removed" - so the trigger must not arrive; registered before: its task exists already
+                    wy = wy + ([wm[idx]] if idx is not None and not later else [])
                     wm = keep
                 elif style == "plain":
                     # events strictly after the trigger must not arrive; the trigger itself may (if invoked before the op)
@@ -326,7 +329,7 @@ def run_b(alpha, views, path, ai, case, res, viol):
                         wm = wm[: (idx + 1) if idx is not None else 0]
                     else:
                         keep = wm[: idx if idx is not None else 0]
-                        wy = wy + ([wm[idx]] if idx is not None else [])
+                        wy = wy + ([wm[idx]] if idx is not None and not later else [])
                         wm = keep
                 else:
                     # coroutine special callback acts later (as a task): removal happens after the whole message
